@@ -333,3 +333,93 @@ func c01mergeWitness(r *Run) {
 		r.Fail(c01mergeSig, fmt.Sprintf("MergeCell(B1:C7); MergeCell(B5:E5): E1 reads %q before the save and %q after save+open (stored ranges %v become %v)", before, after, pre, post), ln, "mergewitness")
 	}
 }
+
+// c01sstseq: SetCellStr on A1.., save+open, SetCellStr on the following cells; the shared-string index stored
+// in every cell and the table against SaveSst (setSharedString bookkeeping, the map built at open).
+func c01sstseq(r *Run, first, second []string) {
+	var b strings.Builder
+	fmt.Fprintf(&b, "%d", len(first))
+	for _, s := range first {
+		b.WriteString(" " + hx(s))
+	}
+	fmt.Fprintf(&b, " %d", len(second))
+	for _, s := range second {
+		b.WriteString(" " + hx(s))
+	}
+	op := "sstseq " + b.String()
+	res := "PANIC"
+	func() {
+		defer func() { _ = recover() }()
+		f := xl.NewFile()
+		defer f.Close()
+		for i, s := range first {
+			if f.SetCellStr("Sheet1", "A"+strconv.Itoa(i+1), s) != nil {
+				res = "ERR"
+				return
+			}
+		}
+		g, err := c01save(f, len(first))
+		if err != nil {
+			res = "ERR-SAVE"
+			return
+		}
+		defer g.Close()
+		for i, s := range second {
+			if g.SetCellStr("Sheet1", "A"+strconv.Itoa(len(first)+i+1), s) != nil {
+				res = "ERR"
+				return
+			}
+		}
+		rows, ok := c01parse(xl.VerifC01Rows(g, "Sheet1"))
+		if !ok {
+			res = "ERR-DUMP"
+			return
+		}
+		var idx []string
+		all := append(append([]string{}, first...), second...)
+		for i := range all {
+			v := "?"
+			if i < len(rows) && len(rows[i].cells) > 0 && rows[i].cells[0].t == "s" {
+				v = rows[i].cells[0].v
+			}
+			idx = append(idx, v)
+			// direct oracle: every cell, also the ones written before the reopen, reads its own string
+			got, _ := g.GetCellValue("Sheet1", "A"+strconv.Itoa(i+1))
+			if got != c01truncate(all[i]) {
+				r.Fail("sstseq:cell-reads-other-string", fmt.Sprintf("A%d was written %s and reads %s after %d+%d SetCellStr calls around a save+open", i+1, c01q(all[i]), c01q(got), len(first), len(second)), 0, op)
+			}
+		}
+		sst := xl.VerifSharedStrings(g)
+		var sb strings.Builder
+		fmt.Fprintf(&sb, "idx=%s sst=%d", strings.Join(idx, ","), len(sst))
+		for _, t := range sst {
+			sb.WriteString(" " + hx(t))
+		}
+		res = sb.String()
+	}()
+	r.Op(op, res)
+	r.Case(op, true)
+	r.Stat("sstseq")
+}
+
+func c01sstseqPhase(r *Run, rng *Rng, n int) {
+	c01sstseq(r, nil, nil)
+	c01sstseq(r, []string{"a", "b", "a"}, []string{"b", "c", "a"})
+	c01sstseq(r, []string{"_x0041_", "A", "_x005F_x0041_", ""}, []string{"A", "_x0041_", "", "a\x01"})
+	c01sstseq(r, []string{strings.Repeat("w", 32768), strings.Repeat("w", 32767)}, []string{strings.Repeat("w", 32769)})
+	pool := []string{"a", "b", "A", "_x0041_", "_x005F_x0041_", " a", "a ", "", "a\x01", "x\ny", "<&>", "é", "_", "_x005F_"}
+	for k := 0; k < n; k++ {
+		var a, b []string
+		for i, m := 0, rng.Intn(6); i < m; i++ {
+			a = append(a, pool[rng.Intn(len(pool))])
+		}
+		for i, m := 0, rng.Intn(6); i < m; i++ {
+			if rng.Chance(30) {
+				b = append(b, c01payload(rng))
+			} else {
+				b = append(b, pool[rng.Intn(len(pool))])
+			}
+		}
+		c01sstseq(r, a, b)
+	}
+}
